@@ -97,7 +97,7 @@ def standard_hooks(prefix=""):
     for t in ("file-pre-create", "file-post-create", "file-pre-edit", "file-post-edit"):
         hs.append(rec_hook("%s%s" % (prefix, t), [t], kv=FILE_KV, stat=["{{ file_path }}"]))
     hs.append(rec_hook("%spost-operation" % prefix, ["post-operation"], kv=POSTOP_KV,
-                       stat=["{{ certificate_path }}", "{{ private_key_path }}"]))
+                       stat=["{{ certificate_path }}", "{{ private_key_path }}"], extra_args=["--content"]))
     return hs
 
 
